@@ -61,8 +61,8 @@ func init() {
 			// N6 floor: one obligation per annotate-tree package (trivial today: nothing is carried between calls).
 			{ID: "N6", Floor: 3, Doc: "no state carried between calls: package-level variables that are written and values drawn from a sync.Pool are emptied before use (or provably empty when put back, on every exit)", Run: c12N6},
 		},
-		Mutants: append(append(append(append(append([]core.Mutant{}, c12Mutants...), c12Mutants5...), c12Mutants6...), c12Mutants7...), c12Mutants8...),
-		Benign:  append(append(append(append(append([]core.Mutant{}, c12Benign...), c12Benign5...), c12Benign6...), c12Benign7...), c12Benign8...),
+		Mutants: append(append(append(append(append(append([]core.Mutant{}, c12Mutants...), c12Mutants5...), c12Mutants6...), c12Mutants7...), c12Mutants8...), c12Mutants9...),
+		Benign:  append(append(append(append(append(append([]core.Mutant{}, c12Benign...), c12Benign5...), c12Benign6...), c12Benign7...), c12Benign8...), c12Benign9...),
 	})
 }
 
